@@ -4,3 +4,4 @@ pub mod fault;
 pub mod rig;
 pub mod wire;
 pub mod sacksynth;
+pub mod setupforge;
